@@ -1,4 +1,4 @@
-import AkVerif.Props.C16
+import AkVerif.Lemmas.Txn
 import AkVerif.Lemmas.TxnTrace
 /-!
 # C07 — transactions are atomic and follow the transactional protocol order
